@@ -157,14 +157,21 @@ def check(ctx):
     for _ in range(12 if ctx.tier == "quick" else 150):
         und = g.choice(["brownian", "heston"])
         cost = g.choice([0.0, 1e-3])
-        stock = BrownianStock(cost=cost, sigma=g.choice([0.1, 0.3])) if und == "brownian" else HestonStock(cost=cost)
+        # zero volatility is admissible: the paths are constant, at the money for strike 1 (gamma infinite, band 0 * inf or inf)
+        sig = g.choice([0.1, 0.3, 0.0, 0.0])
+        stock = BrownianStock(cost=cost, sigma=sig) if und == "brownian" else HestonStock(cost=cost)
         opt = g.choice([EuropeanOption, EuropeanBinaryOption, AmericanBinaryOption, LookbackOption])
-        d = opt(stock, strike=g.choice([0.9, 1.0, 1.1]), maturity=g.choice([5 / 250, 20 / 250]))
+        k_ = g.choice([0.9, 1.0, 1.1, 1.0])
+        if opt is EuropeanBinaryOption and und == "brownian" and sig == 0.0 and k_ == 1.0:
+            k_ = 1.1      # a European binary exactly at the strike with zero volatility has an infinite limiting delta (the property's
+            #               "away from the strike"): the hedge is legitimately unbounded there
+        d = opt(stock, strike=k_, maturity=g.choice([5 / 250, 20 / 250]))
         for mk in ("bs", "ww"):
             model = BlackScholes(d) if mk == "bs" else WhalleyWilmott(d)
             h = Hedger(model, model.inputs())
             d.simulate(n_paths=g.choice([1, 7, 50]))
-            case = {"underlier": und, "option": opt.__name__, "model": mk, "cost": cost}
+            case = {"underlier": und, "option": opt.__name__, "model": mk, "cost": cost, "sigma": sig if und == "brownian" else None,
+                    "strike": float(d.strike)}
             with torch.no_grad():
                 st1, hedge, _ = call_impl(h.compute_hedge, d)
                 st2, plv, _ = call_impl(h.compute_pl, d)
@@ -174,8 +181,54 @@ def check(ctx):
                 ctx.fail("BlackScholes / WhalleyWilmott hedger raised on simulated paths", case, key=f"hedger:{mk}:{opt.__name__}:error",
                          detail=[str(hedge)[:100], str(plv)[:100]])
             elif not (bool(hedge.isfinite().all()) and bool(plv.isfinite().all())):
-                ctx.fail("BlackScholes / WhalleyWilmott hedger produced a non-finite hedge or P&L", case,
-                         key=f"hedger:{mk}:{opt.__name__}:nonfinite")
+                key = f"hedger:{mk}:{opt.__name__}:nonfinite"
+                if und == "brownian" and sig == 0.0:
+                    # call-site / input-class keys of the two recorded findings; every other non-finite hedge keeps its own key
+                    if opt is LookbackOption:
+                        key = "hedger:lookback:nonfinite:zero-volatility"
+                    elif mk == "ww" and cost > 0 and opt in (EuropeanBinaryOption, AmericanBinaryOption):
+                        key = "hedger:ww-binary:nonfinite:zero-volatility"
+                ctx.fail("BlackScholes / WhalleyWilmott hedger produced a non-finite hedge or P&L", case, key=key)
+    # ---------------- the lookback delta is the autograd derivative of the price: evaluate it at the edge as the closed-form ones
+    import pfhedge.nn.functional as fnl_
+    for _ in range(40 if ctx.tier == "quick" else 400):
+        s_ = g.choice([0.0, -0.1, 0.2, -1e-12])
+        m_ = max(s_, g.choice([0.0, 0.05, 0.3]))
+        t_, v_ = g.choice([(0.0, 0.2), (0.1, 0.0), (0.0, 0.0), (1e-300, 0.2), (0.1, 1e-300)])
+        k_ = g.choice([1.0, 0.5, 3.0])
+        T_ = lambda x: torch.tensor([x], dtype=torch.float64)
+        case = {"fn": "lookback_delta", "s": s_, "m": m_, "t": t_, "v": v_, "k": k_}
+        ctx.case(case, True, tag="lookback_delta_edge")
+        st, out, _ = call_impl(fnl_.bs_lookback_delta, T_(s_), T_(m_), T_(t_), T_(v_), k_)
+        if st != "ok":
+            ctx.fail("bs_lookback_delta raised at zero time to maturity / volatility", case, key="bs_lookback_delta:error-at-expiry", detail=out)
+        elif bool(out.isnan().any()):
+            ctx.fail("bs_lookback_delta is NaN at zero time to maturity / zero volatility", case,
+                     key="bs_lookback_delta:nan-at-expiry" if (t_ == 0.0 or v_ == 0.0) else "bs_lookback_delta:nan-tiny")
+    # ---------------- the Whalley-Wilmott module itself at the edge of the domain (the hedger never evaluates it at time to
+    # maturity 0, a user may): the previous hedge clamped to delta -/+ width must not be NaN where the band is 0 or infinite
+    # corpus first: witnesses of the repaired zero-cost defect (width = (0 * inf)^(1/3) = nan at the money)
+    ww_corpus = [(0.0, 1.0, 0.0, 0.1, 0.0, 0.5), (0.0, 1.0, 0.0, 0.0, 0.2, 0.25), (0.0, 2.0, 0.0, 0.0, 0.0, 1.0)]
+    for it_ in range(len(ww_corpus) + (40 if ctx.tier == "quick" else 500)):
+        cost = g.choice([0.0, 1e-3, 1e-2])
+        k = g.choice([1.0, 0.9, 2.0])
+        s_ = g.choice([0.0, 0.0, 1e-12, -0.1, 0.2])
+        t_ = g.choice([0.0, 0.1, 1e-300])
+        v_ = g.choice([0.0, 0.2, 1e-300])
+        prev = g.choice([0.0, 0.5, 1.0, -0.25])
+        if it_ < len(ww_corpus):
+            cost, k, s_, t_, v_, prev = ww_corpus[it_]
+        d = EuropeanOption(BrownianStock(cost=cost), strike=k, call=g.chance(0.5))
+        ww = WhalleyWilmott(d, a=g.choice([1.0, 0.5]))
+        inp = torch.tensor([[s_, t_, v_, prev]], dtype=torch.float64)
+        case = {"ww_module": True, "cost": cost, "strike": k, "call": bool(d.call), "log_moneyness": s_, "time_to_maturity": t_, "volatility": v_, "prev_hedge": prev}
+        ctx.case(case, nontrivial=(t_ == 0.0 or v_ == 0.0), tag="ww_edge")
+        st, out, _ = call_impl(ww, inp)
+        if st != "ok":
+            ctx.fail("WhalleyWilmott module raised at the edge of the domain", case, key="ww_module:edge:error", detail=out)
+        elif bool(out.isnan().any()):
+            ctx.fail("WhalleyWilmott module returns NaN at zero time to maturity / zero volatility", case, key="ww_module:edge:nan",
+                     detail={"output": out.tolist(), "width": ww.width(inp[..., :-1]).tolist()})
     return ctx.finish(
         rule="bs_* functions (4 prices, 3 deltas, European gamma/vega/theta, d1/d2) at t=0, v=0, both, tiny (5e-324,1e-300,1e-16), negative; "
              "|log-moneyness| in {0,1e-12,..,700}, strikes, call/put, running max >= spot; real BS/WW hedgers on simulated Brownian/Heston paths; "
